@@ -21,6 +21,7 @@ DOC = {
         'C01.R4': 'hashing task: inode groups keyed by file_info.id; FileId equality is the derived one over exactly {device, inode}',
         'C01.R5': 'hash_transformed: the length bound handed to stream_hash has no data dependence on chunk.len (the raw file length)',
         'C01.R6': 'fields of FileInfo written through the &mut handed to hash_fn and read by the group key are assigned on every HashedFileInfo the task sends',
+        'C01.R12': 'with the hash cache a reported group still consists of identical files: an entry that a same-length rewrite within the tick of a coarse file-system clock would leave valid is never stored (re-evaluates C12.R6)',
         'C01.R11': 'a file is identified by its whole FileId: the inode number is never read without the device (derived Eq/Ord/Hash of FileId, the cache key), except by the inode_id() accessor whose only user computes the read-ordering `location`; a run of \'paths of the same file\' keyed by the inode alone would give one hash to different files of two file systems mapped to one DiskDevice',
         'C01.R10': 'the chunks are cut from the length recorded by the scan, so the data are only those of the reported file if the length still holds: the three raw hashing stages hand the scanned length to the hasher with the chunk, and file_hash compares it with the length of the file it has open (fstat) and fails on a mismatch - a file that grew or shrank after the scan leaves the stage with a warning instead of being reported under its old length',
         'C01.R9': 'the report file (-o FILE) is created, empty, before the scan starts (main.rs: check_can_create_output_file), so the scan must not take it for one of the input files: scan_files filters out the path that equals config.output',
@@ -45,6 +46,9 @@ def run(ctx):
     r9(ctx)
     r10(ctx)
     r11(ctx)
+    from .common import reevaluate
+    from . import c12
+    reevaluate(ctx, 'C01.R12', c12.r6)
     from .common import run_mandatory
     run_mandatory(ctx, 'C01')
 
